@@ -59,7 +59,8 @@ class ValueOracle(object):
   def dmag(self, r, n=1):
     """Magnitude of the terms of the n-th derivative (used with the 1e-13 factor)."""
     r = F(r)
-    rr = max(1 / max(abs(r), mpf("1e-6")), mpf(10))
+    # terms of the n-th derivative of r^-12-like or exp(-r/0.1)-like pieces are up to (16/min(r,1))^n times the value terms
+    rr = 16 * max(1 / max(abs(r), mpf("1e-6")), mpf(1))
     return self.m.mag(self.node, r) * rr ** n
 
   def dscale(self, r, n=1):
@@ -83,6 +84,49 @@ class ValueOracle(object):
     if n == 1:
       return 64 * U * M / H + mpf("1e-12") * d3
     return 256 * U * M / H ** 2 + mpf("1e-12") * d3 + 64 * U * self.dscale(r, 1) / H
+
+
+def on_break(r, breaks, eps=1e-11):
+  """r coincides (to rounding) with a point where the function may jump."""
+  return near_break(r, breaks, eps)
+
+
+def check_value(ctx, kind, tok, orc, r, factor=1, rel=1e-9, abs_=0.0, where=None, count=True):
+  """tok == orc(r)*factor.  When r sits on a range boundary / table end (the writer's
+  floating-point r and the exact grid point may fall on different sides) the value of
+  either side is accepted."""
+  r = F(r)
+  ats = [r]
+  if r != 0 and on_break(r, orc.breaks):  # r = 0 is exact in both arithmetics: never ambiguous
+    d = max(abs(r), mpf(1)) * mpf("1e-10")
+    ats += [r + d, r - d]
+    ctx.count("values_on_breakpoint_either_side_accepted")
+  last = None
+  for at in ats:
+    try:
+      ref = orc.m.value(orc.node, r, at) * factor
+      sc = R.scale(lambda x: orc.m.value(orc.node, x, at), r) * abs(factor)
+      mag = orc.m.mag(orc.node, r, at) * abs(factor)
+    except (RefDomainError, ZeroDivisionError, ValueError, OverflowError):
+      continue
+    try:
+      obs = float(tok)
+    except ValueError:
+      ctx.violation(kind, "not a number: %r at %s" % (tok, where), what=kind, mech="format")
+      return False
+    ok, diff, tol = R.close(obs, ref, q=R.token_quantum(tok), sc=sc, rel=rel, abs_=abs_, mag=mag)
+    last = (ref, diff, tol)
+    if ok:
+      if count:
+        ctx.count("values_compared")
+      return True
+  if last is None:
+    ctx.count("out_of_domain_points")
+    return True
+  if count:
+    ctx.count("values_compared")
+  ctx.violation(kind, "%s: observed %s, reference %s (|diff|=%.3g > tol=%.3g) at %s" % (kind, tok, mp.nstr(last[0], 15), last[1], last[2], where), what=kind)
+  return False
 
 
 def check_token(ctx, kind, tok, ref, sc, rel=1e-9, abs_=0.0, where=None, quantum=None, mag=0):
